@@ -42,6 +42,16 @@ partial def sexp : V → String
                   (match v with | .str cps => if cps.all (· < 256) then V.bytes cps else v | _ => v) else v
       " (" ++ n ++ " " ++ sexp v' ++ ")") ++ ")"
 
+/-- as `sexp`, but containers keep the order in which the stream listed their items (the harness applies Python's
+    dict/set semantics: first key object, last value) -/
+partial def sexpO : V → String
+  | .tuple xs => "(tuple" ++ String.join (xs.map fun x => " " ++ sexpO x) ++ ")"
+  | .list xs => "(list" ++ String.join (xs.map fun x => " " ++ sexpO x) ++ ")"
+  | .set xs => "(set" ++ String.join (xs.map fun x => " " ++ sexpO x) ++ ")"
+  | .fset xs => "(fset" ++ String.join (xs.map fun x => " " ++ sexpO x) ++ ")"
+  | .dict kvs => "(dict" ++ String.join (kvs.map fun (k, v) => " (" ++ sexpO k ++ " " ++ sexpO v ++ ")") ++ ")"
+  | v => sexp v
+
 def errName : Err → String
   | .structError => "struct.error" | .typeError => "TypeError" | .indexError => "IndexError" | .keyError => "KeyError"
   | .valueError => "ValueError" | .unicodeError => "UnicodeDecodeError" | .recursionError => "RecursionError"
@@ -146,7 +156,7 @@ def marshDispatch (op : String) (args : List String) : Option String :=
       -- Model of xdis.marsh.loads (_FastUnmarshaller)
       let data ← parseHex h
       pure (match Model.FastLoad.loads data with
-        | .ok (v, rest) => s!"{rest.length} {sexp v}"
+        | .ok (v, rest) => s!"{rest.length} {sexpO v}"
         | .error e => match e with
           | .eof => "(err EOFError)" | .badCode => "(err ValueError)" | .unicodeError => "(err UnicodeDecodeError)"
           | .typeError => "(err TypeError)" | .nullValue => "(skip null-value)" | .codeObject => "(skip code-object)"
